@@ -6,6 +6,7 @@ import (
 	"fmt"
 	"image"
 	"image/color"
+	"math"
 	"math/rand"
 	"time"
 
@@ -192,6 +193,12 @@ func editPicture(rng *rand.Rand, prev *image.NRGBA, alphaMode int) *image.NRGBA 
 	w, h := prev.Bounds().Dx(), prev.Bounds().Dy()
 	next := image.NewNRGBA(prev.Bounds())
 	copy(next.Pix, prev.Pix)
+	if alphaMode == 3 { // soft shapes: a disc with a feathered rim moves over a transparent background
+		if rng.Intn(3) > 0 {
+			return softDisc(rng, w, h)
+		}
+		alphaMode = 2
+	}
 	px := func() color.NRGBA {
 		c := color.NRGBA{uint8(rng.Intn(256)), uint8(rng.Intn(256)), uint8(rng.Intn(256)), 255}
 		switch alphaMode {
@@ -243,6 +250,30 @@ func editPicture(rng *rand.Rand, prev *image.NRGBA, alphaMode int) *image.NRGBA 
 	return next
 }
 
+// softDisc draws a textured disc whose alpha falls off over a rim of a few pixels (many alpha levels, two-dimensional
+// gradients, saturation at 0 and 255) on a fully transparent background.
+func softDisc(rng *rand.Rand, w, h int) *image.NRGBA {
+	p := image.NewNRGBA(image.Rect(0, 0, w, h))
+	cx, cy := rng.Intn(w), rng.Intn(h)
+	r := 3 + rng.Intn(1+(w+h)/4)
+	rim := 2 + rng.Intn(10)
+	for y := 0; y < h; y++ {
+		for x := 0; x < w; x++ {
+			d2 := (x-cx)*(x-cx) + (y-cy)*(y-cy)
+			a := 255
+			if d2 > r*r {
+				// distance beyond the radius, approximated without sqrt: linear fall-off in d2
+				a = 255 - (d2-r*r)*255/(rim*(2*r+rim))
+			}
+			if a <= 0 {
+				continue
+			}
+			p.SetNRGBA(x, y, color.NRGBA{uint8(40 + x*5), uint8(200 - y*4), uint8(rng.Intn(256)), uint8(a)})
+		}
+	}
+	return p
+}
+
 func randomAnimInput(rng *rand.Rand, prop string, big bool) animEncInput {
 	cw, ch := 1+rng.Intn(6), 1+rng.Intn(5)
 	if big {
@@ -251,6 +282,9 @@ func randomAnimInput(rng *rand.Rand, prop string, big bool) animEncInput {
 	alphaMode := rng.Intn(3)
 	if prop == "C18" {
 		alphaMode = 1 + rng.Intn(2)
+		if big && rng.Intn(3) == 0 {
+			alphaMode = 3
+		}
 	}
 	n := 1 + rng.Intn(6)
 	in := animEncInput{CW: cw, CH: ch, Origin: "random"}
@@ -373,6 +407,36 @@ func checkAnimEnc(prop string, args []string) {
 	}
 	for i := 0; i < nBig; i++ {
 		inputs = append(inputs, randomAnimInput(rng, prop, true))
+	}
+	// a soft disc (opaque core, feathered rim of many alpha levels, transparent background) moving over the canvas:
+	// two-dimensional alpha gradients that saturate at both ends, in lossy, mixed and all-key-frame modes
+	if prop == "C18" && run.Replay == "" {
+		for i := 0; i < run.Pick(3, 12); i++ {
+			cw, ch := 56+8*(i%3), 56+8*((i/3)%3)
+			in := animEncInput{CW: cw, CH: ch, Origin: "soft-disc"}
+			rad, rim := 14.0+float64(2*(i%4)), 6.0+float64(3*(i%3))
+			for k := 0; k < 3; k++ {
+				p := image.NewNRGBA(image.Rect(0, 0, cw, ch))
+				cx, cy := float64(cw)/2-6+float64(6*k), float64(ch)/2-4+float64(4*k)
+				for y := 0; y < ch; y++ {
+					for x := 0; x < cw; x++ {
+						d := math.Hypot(float64(x)-cx, float64(y)-cy)
+						a := (rad - d) / rim * 255
+						if a <= 0 {
+							continue
+						}
+						if a > 255 {
+							a = 255
+						}
+						p.SetNRGBA(x, y, color.NRGBA{220, 60, 40, uint8(a)})
+					}
+				}
+				in.Pics = append(in.Pics, p)
+				in.Durs = append(in.Durs, 100)
+			}
+			in.Opts = []animation.EncodeOptions{{Quality: 75}, {Quality: 75, AllowMixed: true}, {Quality: 40, Kmax: 1}}[i%3]
+			inputs = append(inputs, in)
+		}
 	}
 	// duration sums crossing 2^24 through merged identical pictures
 	for _, durs := range [][]int{{16777000, 300, 5}, {16777215, 1, 1}, {8388608, 8388608, 8388608, 2}} {
